@@ -487,6 +487,30 @@ theorem oLines_props : ∀ (cs : List Str) (k : Nat), ChunksOK 60 cs → (∀ c 
     · exact ⟨noNl_lineText _ _ hg, lineText_head _ _⟩
     · exact oLines_props (d :: cs) (k + 1) h.2 (fun x hx => hl x (List.mem_cons_of_mem _ hx)) l (by simpa [oLines] using hmem)
 
+/-- the lines of the ORIGIN section, concretely -/
+theorem origin_lines (seq : Str) (hne : seq ≠ []) (hlet : seq.all isLetter = true) :
+    lines (buildOrigin seq ++ "\n//".toList) = oLines 0 (chunks 60 seq) ++ ["//".toList] := by
+  have hok : ChunksOK 60 (chunks 60 seq) := chunksF_ok (by decide) _ seq hne (Nat.le_refl _)
+  have hfl : (chunks 60 seq).flatten = seq := chunksF_flatten (by decide) _ seq hne (Nat.le_refl _)
+  have hl : ∀ c ∈ chunks 60 seq, c.all isLetter = true := all_of_mem_chunks hlet
+  have hcells := cells_pieces (chunks 60 seq) 0 hok hl
+  rw [hfl] at hcells
+  simp only [Nat.mul_zero, ne_eq, not_true_eq_false, if_false] at hcells
+  have hprops := oLines_props (chunks 60 seq) 0 hok hl
+  cases hO : oLines 0 (chunks 60 seq) with
+  | nil =>
+    rw [hO] at hcells
+    simp [nlLines] at hcells
+  | cons l0 ls =>
+    rw [hO] at hcells hprops
+    rw [nlLines_cons] at hcells
+    have hc : cells 0 seq = l0 ++ nlLines ls := (List.cons.inj hcells).2
+    have e : "\n//".toList = '\n' :: "//".toList := by decide
+    rw [buildOrigin_eq, hc, e, lines_nlLines ls l0 _ (hprops l0 List.mem_cons_self).1
+      (fun x hx => (hprops x (List.mem_cons_of_mem _ hx)).1)]
+    have : lines "//".toList = ["//".toList] := by decide
+    rw [this]
+
 /-- The ORIGIN section of a non-empty sequence of letters (fewer than 10^9): the text
 `buildOrigin seq ++ "\n//"` consists of sequence lines followed by the terminator line, none of
 the sequence lines is a terminator, and the column reader recovers the sequence from them. -/
